@@ -203,9 +203,11 @@ func (e *effects) failureAtomic(fn *ssa.Function) bool {
 
 func runC05(c *Ctx) {
 	p, r := c.P, c.R
-	r.Explanation = "Decides failure atomicity and well-formedness structurally: on every feasible path of RegisterPipeline, RegisterNode, RemoveNode (through removeNode/unregisterNode) ending in a non-nil error, and every path of RemovePipelineAndNodes returning false, no registry effect (assignment/delete on Broker.nodes, store to a usage record, graphMap.Store/Delete, node Close) precedes the return — interprocedurally, a failure-atomic callee whose failure is established on the path contributes nothing; the commit point graphMap.Store is reached only after validate, every node lookup, linking, structural validation (with a nil parent) and the overwrite test succeeded; Pipeline.validate's four conditions each force a non-nil result and the all-clear path returns nil; the full decision table of the structural validator's per-node step; IsAnyPipelineRegistered. Equivalence of the composed recursive predicate with the specification over all type sequences is not decided. One recorded known finding: RemoveNode returns the Close error after the node was unregistered and closed. C05.map: graphMap.Store/Delete forward their arguments unconditionally. C05.section (one critical section) and C05.policy (the policy consulted is the same-id entry's only)."
+	r.Explanation = "Decides failure atomicity and well-formedness structurally: on every feasible path of RegisterPipeline, RegisterNode, RemoveNode (through removeNode/unregisterNode) ending in a non-nil error, and every path of RemovePipelineAndNodes returning false, no registry effect (assignment/delete on Broker.nodes, store to a usage record, graphMap.Store/Delete, node Close) precedes the return — interprocedurally, a failure-atomic callee whose failure is established on the path contributes nothing; the commit point graphMap.Store is reached only after validate, every node lookup, linking, structural validation (with a nil parent) and the overwrite test succeeded; Pipeline.validate's four conditions each force a non-nil result and the all-clear path returns nil; the full decision table of the structural validator's per-node step; IsAnyPipelineRegistered. Equivalence of the composed recursive predicate with the specification over all type sequences is not decided. One recorded known finding: RemoveNode returns the Close error after the node was unregistered and closed. C05.map: graphMap.Store/Delete forward their arguments unconditionally. C05.section (one critical section) and C05.policy (the policy consulted is the same-id entry's only). C05.recover: a recovering function returns its result variables as they stand; the closure stores the error and the `removed` flag. C05.store-validated: every store into the pipeline map stores a validated chain."
 	r.NotDecided = []string{"equivalence of the recursive validator + linkNodes with the specification over all node-type sequences", "insertion of a fresh empty graph by a failing RegisterPipeline is exempt by table (adds no pipeline, node or usage)"}
 	c.ruleGraphMap("", "C05.map")
+	c.ruleRecoverResults("C05.recover", []string{PkgRoot}, true)
+	c.ruleStoreSites("C05.store-validated", "")
 	c.ruleOneSection("C05.section")
 	c.ruleNilNode("C05.nilnode")
 	// "no existing pipeline with that ID and type forbids overwriting": the policy consulted is that entry's, no other
@@ -218,8 +220,34 @@ func runC05(c *Ctx) {
 		recv, name string
 		boolFail   bool
 	}
-	for _, t := range []target{{"Broker", "RegisterPipeline", false}, {"Broker", "RegisterNode", false}, {"Broker", "RemoveNode", false}, {"Broker", "removeNode", false},
-		{"Broker", "unregisterNode", false}, {"Broker", "unregisterPipelineAndNodes", false}, {"Broker", "RemovePipelineAndNodes", true}, {"Broker", "RemovePipeline", false}} {
+	targets := []target{{"Broker", "RegisterPipeline", false}, {"Broker", "RegisterNode", false}, {"Broker", "RemoveNode", false}, {"Broker", "removeNode", false},
+		{"Broker", "unregisterNode", false}, {"Broker", "unregisterPipelineAndNodes", false}, {"Broker", "RemovePipelineAndNodes", true}, {"Broker", "RemovePipeline", false}}
+	// the call whose error a return hands back: the call itself, or the error component of its result tuple
+	delegate := func(v ssa.Value) *ssa.Call {
+		if call, ok := v.(*ssa.Call); ok {
+			return call
+		}
+		if ex, ok := v.(*ssa.Extract); ok {
+			if call, ok := ex.Tuple.(*ssa.Call); ok {
+				return call
+			}
+		}
+		return nil
+	}
+	// a Broker method an API function delegates to is decided as well (the body of RegisterNode moved into a helper)
+	addTarget := func(callee *ssa.Function) {
+		if callee == nil || callee.Signature.Recv() == nil || typeShort(callee.Signature.Recv().Type()) != "eventlogger.Broker" {
+			return
+		}
+		for _, t := range targets {
+			if t.name == callee.Name() {
+				return
+			}
+		}
+		targets = append(targets, target{"Broker", callee.Name(), false})
+	}
+	for ti := 0; ti < len(targets); ti++ {
+		t := targets[ti]
 		fn := p.Method(PkgRoot, t.recv, t.name)
 		if fn == nil {
 			if t.name == "RegisterPipeline" || t.name == "RegisterNode" || t.name == "RemoveNode" || t.name == "RemovePipelineAndNodes" {
@@ -253,8 +281,9 @@ func runC05(c *Ctx) {
 				rv := pa.RetVals()
 				idx, _ := returnsError(fn.Signature)
 				if !t.boolFail && idx < len(rv) {
-					if call, ok := rv[idx].(*ssa.Call); ok && call.Call.StaticCallee() != nil && strings.Contains(effs[0], funcShort(call.Call.StaticCallee())) {
+					if call := delegate(rv[idx]); call != nil && call.Call.StaticCallee() != nil && strings.Contains(effs[0], funcShort(call.Call.StaticCallee())) {
 						r.Ok("C05.atomic", p.ShortFn(fn)+":delegates", p.InstrPos(pa.End), "returns the error of "+funcShort(call.Call.StaticCallee())+" unchanged; failure atomicity is decided there")
+						addTarget(call.Call.StaticCallee())
 						continue
 					}
 				}
@@ -267,8 +296,9 @@ func runC05(c *Ctx) {
 			failing := ""
 			if rv := pa.RetVals(); !t.boolFail && rv != nil {
 				if idx, ok := returnsError(fn.Signature); ok && idx < len(rv) {
-					if call, ok := rv[idx].(*ssa.Call); ok && call.Call.StaticCallee() != nil {
+					if call := delegate(rv[idx]); call != nil && call.Call.StaticCallee() != nil {
 						failing = "call of " + funcShort(call.Call.StaticCallee()) + " "
+						addTarget(call.Call.StaticCallee())
 					}
 				}
 			}
